@@ -111,7 +111,7 @@ def run_detect(case):
                 t["title"] = "Track number %02d of this disc" % (i + 1)
                 t["extra"] = ['PERFORMER "Somebody"']
             tracks.append(t)
-        p = os.path.join(d, "disc.cue")
+        p = os.path.join(d, case.get("cue_name", "disc.cue"))
         with open(p, "w") as f:
             # long sheets: REM lines before the FILE line (legal anywhere, ignored)
             f.write("".join("REM comment line %04d %s\n" % (k, "x" * 40) for k in range(case.get("preamble", 0))))
@@ -148,7 +148,7 @@ class Check(CheckBase):
             "through the printed names, identical exported trees (paths + bytes); cue dispatch: all combinations of "
             "AUDIO/MODE1/2352/MODE2/2352 modes over <=3 tracks; long sheets: n titled audio tracks (+ a data track last) for "
             "every n<=98, k comment lines before FILE for every k<300 (thorough <1200) and 5000, 20000; an all-audio sheet "
-            "lists exactly its tracks. non-trivial = image with >=1 exported file")
+            "lists exactly its tracks; the sheet named DISC.CUE / Disc.Cue / disc.CUE / with a blank / with two dots. non-trivial = image with >=1 exported file")
     assumptions = ["MODE1/2352 and MDX writers follow the layouts in DESIGN appendix A"]
 
     def shards(self):
@@ -186,6 +186,11 @@ class Check(CheckBase):
                 if k == 3 and self.quick and t[0] != "AUDIO":
                     continue
                 det.append({"fmt": "detect", "modes": list(t), "data": not all(m.upper() == "AUDIO" for m in t)})
+        # the sheet's own file name written the way other systems write it
+        for nm in ("DISC.CUE", "Disc.Cue", "disc.CUE", "my disc.cue", "disc.v2.cue"):
+            for k in (1, 2):
+                for t in itertools.product(modes, repeat=k):
+                    det.append({"fmt": "detect", "modes": list(t), "data": not all(m.upper() == "AUDIO" for m in t), "cue_name": nm})
         # long cue sheets, every length in a consecutive range: n titled audio tracks (then a data track / all audio) for
         # every n up to the 99 a disc can hold; k comment lines (61 bytes each) before the FILE line for every k
         for n in range(1, 99):
